@@ -134,6 +134,7 @@ Finish == Seal \/ ExecNode \/ Emit
 \* with multi-output nodes are enumerated completely
 Active == CASE TplFilter = "rec" -> {t \in Templates : t.op \in {"Unsqueeze", "GRU", "LSTM", "RNN", "Squeeze", "Relu"}}
             [] TplFilter = "rec_small" -> {t \in Templates : t.op \in {"Unsqueeze", "GRU", "LSTM", "RNN", "Squeeze"}}
+            [] TplFilter = "core" -> {t \in Templates : t.op \in {"Add", "Mul", "Relu", "Transpose", "Concat", "Slice", "Constant"} \/ (t.op = "Gemm" /\ Len(t.ins) = 3)}
             [] TplFilter = "norec" -> {t \in Templates : t.op \notin {"GRU", "LSTM", "RNN"}}
             [] OTHER -> Templates
 Next == (\E t \in Active : \E w \in Wirings(t, scope) : AddNode(t, w)) \/ Finish
